@@ -2,6 +2,7 @@
 import json, os, re, sys
 from checklib import *
 import spec_c12
+import spec_c12k
 
 THEOREMS = [
     "C12_prove_verify", "C12_cap_is_spec", "C12_tree_new_total", "C12_layout_total_disjoint",
@@ -24,7 +25,7 @@ def oracle_scan(casefile, limit=20):
             key = op + ":panic"
         dist[key] = dist.get(key, 0) + 1
         try:
-            msg = spec_c12.check(op, args, res)
+            msg = (spec_c12k if op in ('kcap', 'kprove', 'kverify') else spec_c12).check(op, args, res)
         except Exception as ex:  # malformed line: a broken harness, not a property violation
             msg = "oracle could not parse the case: %r" % (ex,)
         if msg is not None and len(fails) < limit:
@@ -49,6 +50,8 @@ def in_coq_subset(c, casefile, per_op=3, max_args=120):
     """replay a few small ToyHash cases inside Coq with vm_compute (no extraction involved)"""
     picked, seen = [], {}
     for lineno, op, args, res in parse_case_lines(casefile):
+        if op in ("kcap", "kprove", "kverify"):      # Keccak ops: judged by the Python oracle only
+            continue
         if not args or args[0] != "1" and op not in ("compress",):
             continue
         if len(args) > max_args or seen.get(op, 0) >= per_op:
